@@ -97,15 +97,19 @@ func Assert(id string, c bool) {
 	}
 }
 
-func Assertf(id string, c bool, msg string) {
+func Assertf(id string, c bool, format string, args ...any) {
 	if !c {
-		Failures = append(Failures, id+": "+msg)
+		Failures = append(Failures, id+": "+fmt.Sprintf(format, args...))
 	}
 }
 
 func Fail(id string, msg string) { Failures = append(Failures, id+": "+msg) }
 
 func Note(s string) { Notes = append(Notes, s) }
+
+// Notef records an observable output; the engine renders it under the model of the
+// path (or counterexample), the native build renders it directly.
+func Notef(format string, args ...any) { Notes = append(Notes, fmt.Sprintf(format, args...)) }
 
 func PickStr(sel int, tab []string) string { return tab[sel] }
 func PickInt(sel int, tab []int) int       { return tab[sel] }
